@@ -1,7 +1,8 @@
 (* Extraction for C03 / C04: the verified route checker, the known-finding classifier and the reference router. *)
 Require Extraction.
 Require Import ExtrOcamlBasic.
-From Adapt Require Import Num.Qaux Avoid.SegPolyModel Avoid.RefRouterModel Avoid.RefRouterVertexOnlyModel.
+From Adapt Require Import Num.Qaux Geom.GeomSpec Geom.GeomSpecDec Avoid.SegPolyModel Avoid.RefRouterModel Avoid.RefRouterVertexOnlyModel.
 Extraction "c03_model.ml"
   route_ok offenders degenerate_chord convex_ccw through_interior inside_strict inside_closed seg_clear segs_clear
-  route_plain route_taut route_taut_vertex_only taut_select polyline_len polyline_turns spec_validateBendPoint spec_inValidRegion lenZ.
+  route_plain route_taut route_taut_vertex_only taut_select polyline_len polyline_turns spec_validateBendPoint spec_inValidRegion lenZ
+  spec_shapeBlocks spec_touchCount spec_crossesEdge poly_edges.
